@@ -171,11 +171,19 @@ prop(
           "(helper x gate x record x one of the 7 arrays x bit) flipped => at least one helper rejects (thorough: all 7x256x3 single-bit flips "
           "of one block). (c) real select / multiply protocols over BA3..BA256 under dzkp_validator in validate() and validate_record modes "
           "(1-5 batches): honest => Ok; one transmitted multiplication bit flipped by the interceptor => some helper rejects (faults on proof "
-          "messages are recorded as observations only). distinct = (shape) / (flip class) / (type, step family, sender)"),
+          "messages are recorded as observations only). (d) deviating provers: one helper sent 1-5 wrong product bits and builds its proofs "
+          "itself (u/v from the verifiers' views or its own, points of the first/intermediate/final proof shifted or compensated, mask slot, "
+          "Fiat-Shamir continued from the altered proofs) so that exactly a chosen non-empty set of the verifier's differences is non-zero "
+          "(every singleton, every pair, larger even/odd sets; 1-7 (thorough: 1-8) compressed proofs; each helper as prover) against the real "
+          "Batch::validate / BatchToVerify calls: some helper must reject; controls: honest data with the crate's and with the harness "
+          "prover are accepted. distinct = (shape) / (flip class) / (type, step family, sender) / (shape, prover, target set)"),
     assumptions=["soundness error of the proof system (~2^-50 per batch) is ignored", "TARGET_PROOF_SIZE = 8192 (cfg(test))"],
     shards={"quick": 16, "thorough": 16},
     min_evaluations={"quick": 30000, "thorough": 40000},
-    must_see=[("honest_batch_accepted", 20), ("flipped_batch_rejected", 60), ("transmitted_flip_rejected", 20), ("block_position_indices_ok", 32768)],
+    must_see=[("honest_batch_accepted", 20), ("flipped_batch_rejected", 60), ("transmitted_flip_rejected", 20), ("block_position_indices_ok", 32768),
+              ("crafted_proof_rejected", 500), ("crafted_intended_set_produced", 1500), ("control_harness_prover_accepted", 40),
+              ("control_honest_accepted", 40), ("honest_code_on_wrong_product_rejected", 40), ("crafted_singletons", 40),
+              ("crafted_strategies", 10), ("crafted_shapes", 14)],
     watchdog_s={"quick": 1200, "thorough": 7200},
 )
 
